@@ -6,3 +6,5 @@ pub mod manager;
 pub mod protocol;
 pub mod relay;
 pub mod util;
+#[cfg(octo_squirrel_verif)]
+pub mod verif_clock;
